@@ -46,7 +46,9 @@ RULE = ('generated host programs (two modules, app/ and lib/): call chain 1-6 le
         'tracepoint {line | function entry} at a generated position, optionally a twin tracepoint at the same '
         'location x frame_type {single_frame, all_frame, no_frame, unknown text, empty, absent} x 0-6 watches over '
         'locals / globals / caller-only names / failing expressions / pairs of fresh temporaries x fire_count {1, 2, '
-        'every hit} x limits {default, small via action config} x APP_ROOT / IN_APP_INCLUDE / IN_APP_EXCLUDE given in '
+        'every hit} x limits {default, small via action config}, plus a stream of two tracepoints with different limits '
+        'hit alternately on one thread or by two threads with a forced schedule (each snapshot judged by its own '
+        'limits), values whose == raises / is not a bool / is always or never true x APP_ROOT / IN_APP_INCLUDE / IN_APP_EXCLUDE given in '
         'code or through DEEP_IN_APP_* environment variables.  Distinct = distinct canonical JSON.  Non-trivial = a '
         'snapshot with >= 2 program frames and >= 1 collected variable that has children.')
 TRUSTED = ['CPython frame objects (f_back, f_locals, f_code, f_lineno) and sys.settrace event delivery are read, not '
@@ -93,10 +95,17 @@ def gen_watches(rng, prog, cand, source):
         w = rng.choice(pool)
         if w not in out:
             out.append(w)
-    if rng.random() < 0.25:
+    if rng.random() < 0.3:
         # two fresh temporaries of one type in a row: the first is garbage when the second is made
         out += rng.choice([['{"k": 1}', '{"k": 2}'], ['[1, 2]', '[3, 4]'], ['Plain(5)', 'Plain(6)'],
-                           ["G_STR + 'a'", "G_STR + 'b'"], ['(G_INT, 1)', '(G_INT, 2)']])
+                           ["G_STR + 'a'", "G_STR + 'b'"], ['(G_INT, 1)', '(G_INT, 2)'],
+                           # equal but distinct temporaries, then a different one of the same size
+                           ['[0] * 3', '[0, 0, 0]', 'list((0, 0, 0))', '[1] * 3', '[2, 2, 2]'],
+                           ['{"k": [7]}', 'dict(k=[7])', '{"k": [8]}', '{"k": [9]}'],
+                           # values whose == raises, is not a bool, is always / never true
+                           ['EqRaises()', 'EqArray()', 'EqRaises()'], ['EqArray()', '[EqArray()]', 'EqArray().data'],
+                           ['EqAlways()', 'NaNLike()', 'EqAlways()', "float('nan')", "float('nan')"],
+                           ['G_LIST', 'EqAlways()', '[1, 2, 3]', 'NaNLike()', '[1, 2, 3] + []']])
         out = [w for i, w in enumerate(out) if w not in out[:i]]
     return out
 
@@ -204,11 +213,101 @@ def gen_strict_echo(rng):
     return case
 
 
+PAIR_BODY = '''
+import threading
+ARMED = [False]
+collecting = threading.Event()
+carry_on = threading.Event()
+
+
+class Gate:
+    """a value that (when armed by the harness) stops the thread that renders it as text, the first time"""
+    def __init__(self):
+        self.used = False
+
+    def __str__(self):
+        if ARMED[0] and not self.used:
+            self.used = True
+            collecting.set()
+            carry_on.wait(30)
+        self.used = True
+        return 'Gate'
+
+
+def worker():
+    gate = Gate()
+    data = list(range(@N1@))
+    text = 'w' * @M1@
+    nest = [[[[[1, 2]]]], 'x' * @M1@]
+    return len(data)    #LW
+
+
+def other():
+    small = list(range(@N2@))
+    words = 'o' * @M2@
+    nest = {'k': [[[[3]]]], 'long': 'y' * @M2@}
+    return len(small)    #LO
+
+
+def main():
+    worker()
+    other()
+    worker()
+    return other()
+'''
+
+
+def gen_pair(rng):
+    """two tracepoints with DIFFERENT limits, hit alternately on one thread, or by two threads with a forced
+    schedule: the second thread runs through its tracepoint while the first is stopped in the middle of collecting its
+    frame.  Every snapshot is judged against the limits of its own tracepoint."""
+    def lim():
+        out = {}
+        if rng.random() < 0.7:
+            out['MAX_COLLECTION_SIZE'] = rng.choice([1, 2, 3, 5, 12])
+        if rng.random() < 0.6:
+            out['MAX_STRING_LENGTH'] = rng.choice([4, 8, 20])
+        if rng.random() < 0.5:
+            out['MAX_VAR_DEPTH'] = rng.choice([2, 3, 4, 6])
+        return out
+    lw, lo = lim(), lim()
+    while lw == lo:
+        lo = lim()
+    if rng.random() < 0.3:
+        (lw if rng.random() < 0.5 else lo).clear()        # one of them with the default limits
+        if lw == lo:
+            lw['MAX_COLLECTION_SIZE'] = 2
+    a = (c02_gen.PRELUDE_A + PAIR_BODY).replace('@N1@', str(rng.choice([4, 7, 11, 14]))) \
+        .replace('@N2@', str(rng.choice([3, 6, 11, 13]))).replace('@M1@', str(rng.choice([6, 15, 40]))) \
+        .replace('@M2@', str(rng.choice([5, 12, 30])))
+    lines = a.split('\n')
+    lw_line = next(i + 1 for i, l in enumerate(lines) if '#LW' in l)
+    lo_line = next(i + 1 for i, l in enumerate(lines) if '#LO' in l)
+    mode = rng.choice(['threads', 'threads', 'alternate'])
+    every = {'fire_count': '-1', 'fire_period': '0'}
+
+    def tp(tid, line, limits, watches):
+        args = dict(every)
+        ft = rng.choice([None, 'single_frame', 'all_frame'])
+        if ft:
+            args['frame_type'] = ft
+        t = {'id': tid, 'file': 'a', 'line': line, 'args': args, 'watches': watches}
+        if limits:
+            t['limits'] = limits
+        return t
+    return {'kind': 'pair', 'mode': mode, 'a': a, 'b': c02_gen.PRELUDE_B, 'app': {'APP_ROOT': '$HOST/app'},
+            'tps': [tp('tp-worker', lw_line, lw, rng.choice([[], ['data'], ['text + "!"', 'len(data)']])),
+                    tp('tp-other', lo_line, lo, rng.choice([[], ['small'], ['words * 2', 'nest']]))],
+            'meta': {'kinds': ['pair'], 'level': 0, 'text': mode}}
+
+
 def gen(rng, tier):
     k = 0
     while True:
         k += 1
-        if k % 17 == 0:
+        if k % 19 == 0:
+            yield gen_pair(rng)
+        elif k % 17 == 0:
             yield gen_strict_echo(rng)
         elif k % 7 == 0:
             yield gen_case(rng, {'frame_type': 'all_frame'})
@@ -279,10 +378,11 @@ def limits_of(case):
 
 
 # ======================================================================================= running a program
-def run_on_thread(trace, fn):
-    """run fn() on a fresh thread with `trace` installed by sys.settrace — as rig.run_traced does, except that the
+def start_on_thread(trace, fn):
+    """start fn() on a fresh thread with `trace` installed by sys.settrace — as rig.run_traced does, except that the
     frame of `body` holds the trace function only as a bound method (no attributes), so the frames below the program
-    (this one and threading's) are small and the same in both runs whatever the agent has accumulated."""
+    (this one and threading's) are small and the same in both runs whatever the agent has accumulated.
+    Returns (thread, result dict filled in when the thread ends)."""
     res = {}
 
     def body(trace, fn):
@@ -296,12 +396,19 @@ def run_on_thread(trace, fn):
             sys.settrace(None)
     t = threading.Thread(target=body, args=(trace, fn))
     t.start()
+    return t, res
+
+
+def run_on_thread(trace, fn):
+    t, res = start_on_thread(trace, fn)
     t.join()
     return res
 
 
 # ======================================================================================= run A: the real agent
 def tp_ids(case):
+    if case['tp'].get('id'):
+        return [case['tp']['id']]
     return ['tp-c02', 'tp-c02-twin'] if case['tp'].get('twin') else ['tp-c02']
 
 
@@ -525,6 +632,8 @@ def run_recorder(case, host):
 
 
 def run_impl(case):
+    if case.get('kind') == 'pair':
+        return run_pair(case)
     host = Host(case)
     try:
         try:
@@ -889,6 +998,8 @@ def check_snapshot(case, env, snap, rec, out, first_hit=True):
 
 
 def oracle(case, obs):
+    if case.get('kind') == 'pair':
+        return oracle_pair(case, obs)
     out = oracle_main(case, obs)
     if case.get('strict_echo') and 'raised' not in obs['agent']:
         ids = tp_ids(case)
@@ -940,6 +1051,8 @@ HEAP_KEYS = ('ty', 'tyrepr', 'dict', 'str', 'ph', 'len', 'items', 'seq', 'isexc'
 
 
 def model_request(case, obs):
+    if case.get('kind') == 'pair':
+        return model_request_pair(case, obs)
     a, b = obs['agent'], obs['rec']
     if 'raised' in a or not a['snaps']:
         return None
@@ -950,16 +1063,7 @@ def model_request(case, obs):
         hit, j = divmod(k, len(ids))
         if hit >= len(b['records']):
             break
-        rec = b['records'][hit]
-        hits.append({'op': 'snapshot', 'id': ids[j], 'path': obs['env']['tp_path'],
-                     'line': -1 if tp.get('method') else tp['line'],
-                     'args': [[k, v] for k, v in tp['args'].items()], 'watches': list(tp['watches']),
-                     'limits': [[k, v] for k, v in (tp.get('limits') or {}).items()],
-                     'app': resolved_app(obs['env']),
-                     'stack': [{'file': f['file'], 'func': f['func'], 'line': f['line'], 'locals': f['locals']}
-                               for f in rec['frames']],
-                     'heap': [{k: o[k] for k in HEAP_KEYS} for o in rec['heap']],
-                     'evals': [[e, [x['obj'] for x in row]] for e, row in zip(tp['watches'], rec['evals'])]})
+        hits.append(hit_request(tp, ids[j], obs['env'], b['records'][hit]))
     return {'op': 'multi', 'hits': hits}
 
 
@@ -1065,6 +1169,8 @@ def compare_hit(case, env, snap, rec, resp, out, first_hit=True):
 
 
 def compare(case, obs, resp):
+    if case.get('kind') == 'pair':
+        return compare_pair(case, obs, resp)
     if 'error' in resp:
         return ['model error: ' + resp['error']]
     out = []
@@ -1078,8 +1184,162 @@ def compare(case, obs, resp):
     return out
 
 
+# ======================================================================================= two tracepoints, own limits
+def pseudo(case, tp):
+    """a pair case seen from one of its tracepoints, in the shape the single-tracepoint functions take"""
+    return {'kind': 'prog', 'a': case['a'], 'b': case['b'], 'tp': tp, 'app': case['app']}
+
+
+class Both:
+    """one trace function for several recorders"""
+
+    def __init__(self, recs):
+        self.recs = recs
+
+    def trace_call(self, frame, event, arg):
+        for r in self.recs:
+            r.trace_call(frame, event, arg)
+        return self.trace_call
+
+
+def run_pair_agent(case, host):
+    import deep.processor.frame_collector as fc
+    r = rig.Rig({k: host.subst(v) for k, v in case['app'].items()})
+    orig = fc.time_ns
+    fc.time_ns = lambda: r.clock
+    try:
+        trigs = []
+        for tp in case['tps']:
+            trigs += build_triggers(pseudo(case, tp), host)
+        r.install(trigs)
+        mod = host.load()
+        gated = False
+        if case['mode'] == 'threads':
+            # thread W is stopped (events, no sleeps) while its frame is being collected; thread O then runs through
+            # its own tracepoint; then W goes on
+            mod.ARMED[0] = True
+            tw, resw = start_on_thread(r.handler.trace_call, mod.worker)
+            for _ in range(3000):
+                if mod.collecting.wait(0.01) or not tw.is_alive():
+                    break
+            gated = mod.collecting.is_set() and tw.is_alive()
+            reso = run_on_thread(r.handler.trace_call, mod.other)
+            mod.carry_on.set()
+            tw.join(60)
+            if tw.is_alive():
+                raise core.Infra('pair: the worker thread did not finish')
+            results = [resw, reso]
+        else:
+            results = [run_on_thread(r.handler.trace_call, mod.main)]
+        snaps = {}
+        for sn in r.push.pushed[:24]:
+            d = rig.dump_snapshot(sn)
+            d.pop('attributes', None)
+            snaps.setdefault(d['tracepoint']['id'], []).append(d)
+        return {'snaps': snaps, 'count': len(r.push.pushed), 'gated': gated,
+                'exc': [type(x['exc']).__name__ for x in results if 'exc' in x],
+                'trace_kept': all(x.get('trace_after') is not None for x in results)}
+    finally:
+        fc.time_ns = orig
+        r.close()
+
+
+def run_pair_recorder(case, host):
+    recs = [Recorder(pseudo(case, tp), host) for tp in case['tps']]
+    both = Both(recs)
+    mod = host.load()
+    if case['mode'] == 'threads':
+        run_on_thread(both.trace_call, mod.worker)
+        run_on_thread(both.trace_call, mod.other)
+    else:
+        run_on_thread(both.trace_call, mod.main)
+    errs = [e for r in recs for e in r.errors]
+    return {'records': {tp['id']: r.records for tp, r in zip(case['tps'], recs)}, 'errors': errs}
+
+
+def run_pair(case):
+    host = Host(case)
+    try:
+        try:
+            a = run_pair_agent(case, host)
+        except core.Infra:
+            raise
+        except BaseException as e:      # noqa: B902
+            a = {'raised': '%s: %s' % (type(e).__name__, e), 'snaps': {}, 'count': 0}
+        b = run_pair_recorder(case, host)
+        if b['errors']:
+            raise core.Infra('recorder failed: %s' % b['errors'][:2])
+        env = {'host': host.dir, 'apath': host.apath, 'bpath': host.bpath, 'tp_path': host.tp_path(case['tps'][0]),
+               'app': {k: host.subst(v) for k, v in case['app'].items()}}
+        return {'agent': a, 'rec': b, 'env': env}
+    finally:
+        host.close()
+
+
+def pair_items(case, obs):
+    """(tracepoint, its pseudo case, k, snapshot, recording) for every snapshot that has a recording"""
+    for tp in case['tps']:
+        snaps = obs['agent']['snaps'].get(tp['id'], [])
+        recs = obs['rec']['records'].get(tp['id'], [])
+        for k, (sn, rec) in enumerate(zip(snaps, recs)):
+            yield tp, pseudo(case, tp), k, sn, rec
+
+
+def oracle_pair(case, obs):
+    a = obs['agent']
+    if 'raised' in a:
+        return ['agent raised: ' + a['raised']]
+    out = []
+    if a.get('exc'):
+        out.append('program failed with the agent: %s' % a['exc'])
+    if not a.get('trace_kept'):
+        out.append('trace function removed')
+    for tp in case['tps']:
+        n, m = len(a['snaps'].get(tp['id'], [])), len(obs['rec']['records'].get(tp['id'], []))
+        if n != m:
+            out.append('%s: %d snapshots for %d hits' % (tp['id'], n, m))
+    for tp, ps, k, sn, rec in pair_items(case, obs):
+        sub = []
+        check_echo(ps, obs['env'], sn, sub, tp['id'])
+        check_snapshot(ps, obs['env'], sn, rec, sub, first_hit=(k == 0))
+        out += ['%s hit %d (own limits %s): %s' % (tp['id'], k, tp.get('limits') or 'default', x) for x in sub[:6]]
+    return out[:12]
+
+
+def hit_request(tp, tid, env, rec):
+    return {'op': 'snapshot', 'id': tid, 'path': env['tp_path'],
+            'line': -1 if tp.get('method') else tp['line'],
+            'args': [[k, v] for k, v in tp['args'].items()], 'watches': list(tp['watches']),
+            'limits': [[k, v] for k, v in (tp.get('limits') or {}).items()],
+            'app': resolved_app(env),
+            'stack': [{'file': f['file'], 'func': f['func'], 'line': f['line'], 'locals': f['locals']}
+                      for f in rec['frames']],
+            'heap': [{k: o[k] for k in HEAP_KEYS} for o in rec['heap']],
+            'evals': [[e, [x['obj'] for x in row]] for e, row in zip(tp['watches'], rec['evals'])]}
+
+
+def model_request_pair(case, obs):
+    if 'raised' in obs['agent']:
+        return None
+    hits = [hit_request(tp, tp['id'], obs['env'], rec) for tp, ps, k, sn, rec in pair_items(case, obs)]
+    return {'op': 'multi', 'hits': hits} if hits else None
+
+
+def compare_pair(case, obs, resp):
+    if 'error' in resp:
+        return ['model error: ' + resp['error']]
+    out = []
+    for (tp, ps, k, sn, rec), r in zip(pair_items(case, obs), resp['hits']):
+        sub = []
+        compare_hit(ps, obs['env'], sn, rec, r, sub, first_hit=(k == 0))
+        out += ['%s hit %d: %s' % (tp['id'], k, x) for x in sub[:6]]
+    return out
+
+
 # ======================================================================================= bookkeeping
 def label(case, obs):
+    if case.get('kind') == 'pair':
+        return 'pair/%s/%s' % (case['mode'], 'interleaved' if obs['agent'].get('gated') else 'sequential')
     tp = case['tp']
     ft = tp['args'].get('frame_type', '<absent>')
     n = obs['agent'].get('count', 0)
@@ -1089,6 +1349,8 @@ def label(case, obs):
 
 
 def nontrivial(case, obs):
+    if case.get('kind') == 'pair':
+        return case['mode'] == 'alternate' or bool(obs['agent'].get('gated'))
     for s in obs['agent'].get('snaps', []):
         hostframes = [f for f in s['frames'] if f['file'] in (obs['env']['apath'], obs['env']['bpath'])]
         if len(hostframes) >= 2 and any(v['children'] for v in s['vars'].values()):
@@ -1099,6 +1361,8 @@ def nontrivial(case, obs):
 def known_finding(case, obs):
     """C02/echo-drops-condition: only for cases of the strict-echo stream that satisfy the finding's structural
     predicate, and only when nothing but the echo is wrong (any other violation is reported as such)."""
+    if case.get('kind') == 'pair':
+        return None
     if case.get('strict_echo') and echo_instance(case) and not oracle_main(case, obs):
         return FINDING_ECHO
     return None
@@ -1160,6 +1424,25 @@ def main():
 '''
 
 
+def corpus_pairs():
+    """two tracepoints with different limits: two threads interleaved, and one thread alternating"""
+    import random
+    out = []
+    for mode, lw, lo in (('threads', {'MAX_COLLECTION_SIZE': 2, 'MAX_STRING_LENGTH': 8}, {}),
+                         ('threads', {}, {'MAX_COLLECTION_SIZE': 1, 'MAX_VAR_DEPTH': 2}),
+                         ('alternate', {'MAX_STRING_LENGTH': 4}, {'MAX_COLLECTION_SIZE': 12, 'MAX_VAR_DEPTH': 6})):
+        c = gen_pair(random.Random('c02-corpus-pair'))
+        c['mode'] = mode
+        c['meta']['text'] = mode
+        for tp, lim in zip(c['tps'], (lw, lo)):
+            tp.pop('limits', None)
+            if lim:
+                tp['limits'] = dict(lim)
+            tp['args'].pop('frame_type', None)
+        out.append(c)
+    return out
+
+
 def corpus():
     """hand-written regression cases: shapes of past defects (new-valued watch after the frame, falsy self, two
     tracepoints on one line, globals in watches, fresh temporaries, DEEP_IN_APP_EXCLUDE list, limits for watches)."""
@@ -1190,10 +1473,21 @@ def corpus():
         # one inherited method (one code object) on the stack three times, self of three classes
         case({'file': 'a', 'line': l3, 'args': {'frame_type': 'all_frame'}, 'watches': ['type(self).__name__']}),
         case({'file': 'a', 'line': l3, 'args': {'frame_type': 'single_frame'}, 'watches': ['scale']}),
-    ]
+        # values whose == raises / is not a bool / is always or never true; equal but distinct temporaries
+        case({'file': 'a', 'line': l1, 'args': {}, 'watches': ['EqArray()', 'EqRaises()', 'EqAlways()', 'NaNLike()',
+                                                               '[0] * 3', '[0, 0, 0]', '[1] * 3', '[2, 2, 2]']}),
+    ] + corpus_pairs()
 
 
 def shrink(case):
+    if case.get('kind') == 'pair':
+        for i in (0, 1):
+            if case['tps'][i]['watches']:
+                c = dict(case)
+                c['tps'] = [dict(t) for t in case['tps']]
+                c['tps'][i]['watches'] = []
+                yield c
+        return
     tp = case['tp']
     if tp.get('twin'):
         c = dict(case)
